@@ -22,6 +22,8 @@ type propCheck struct {
 	thoroughConfigs []string
 	assumptions     []string
 	trustedBase     []string
+	// overlayGen adds in-memory files to the tree before loading (e.g. instantiation wrappers)
+	overlayGen func(repo string) map[string][]byte
 }
 
 var registry = map[string]*propCheck{}
@@ -138,6 +140,11 @@ func realMain() (code int) {
 		}
 		mutantMode = true
 		*tier = "quick"
+	}
+	if p.overlayGen != nil {
+		for k, v := range p.overlayGen(repo) {
+			ov[k] = v
+		}
 	}
 	configs := []string{"linux/amd64"}
 	if *tier == "thorough" {
